@@ -256,7 +256,18 @@ def named_twin(case):
     return c
 
 
+def normalise(case):
+    """cases loaded from JSON (corpus, replays) carry lists where the generator makes tuples"""
+    def tv(v):
+        return None if v is None else tuple(v)
+    c = dict(case)
+    kind, body = case['input'][0], case['input'][1]
+    c['input'] = (kind, [tv(v) for v in body]) if kind == 'list' else (kind, [(k, tv(v)) for k, v in body])
+    return c
+
+
 def evaluate(ctx, case, record=True):
+    case = normalise(case)
     res = B.run_impl(case)
     probs = oracle(case, res)
     tw = named_twin(case)
